@@ -28,6 +28,16 @@ package bmtree
 //@   ensures m == path & 0xffffffff
 //@   assigns nothing
 
+// PathStr renders exactly the PathLen(path) prefix bits, most significant first ('0' = 48, '1' = 49).
+// fmt.Sprintf("%0[1]*[2]b", w, v) is an assumed contract (binary digits of v, zero-padded to w).
+//@ func PathStr returns (s)
+//@   requires path >> 32 < uint64(1) << uint64(32 - lz32(uint32(path)))
+//@   ensures len(s) == int(PC32(uint32(path)))
+//@   ensures forall k int :: 0 <= k && k < len(s) ==> s[k] == uint8(48) + uint8((path >> uint64(32 + int(32 - lz32(uint32(path))) - 1 - k)) & 1)
+//@   assigns nothing
+//@   split PC32(uint32(path)) 0 32
+//@   split lz32(uint32(path)) 0 32
+
 //@ func Height returns (h)
 //@   ensures h == 31 - lz32(uint32(bitmapSize))
 //@   assigns nothing
